@@ -69,6 +69,12 @@ def run(ctx: Ctx, aspect="verdict"):
     s = Stream(ctx, "re-used rule objects: second application vs a fresh rule object")
     reuse_stream(ctx, s, ctx.size(1500, 20000))
     s.finish()
+    if not ctx.violations:
+        from ..rules_common import scanned_equiv_stream
+
+        s = Stream(ctx, "scanned architectures (default, externals included, level limit) vs architectures built directly from the same modules and imports")
+        scanned_equiv_stream(ctx, s, ctx.size(250, 5000))
+        s.finish()
     # rules over related names: judged by the specification inside the widest oracle domain (parentFree: the parent of a
     # 'sub modules of' filter is not a member of a filter of the rule), compared with the model only outside it (drift)
     s = Stream(ctx, "random rules over related names (oracle on the parentFree domain, model only outside)")
